@@ -7,6 +7,7 @@ CONSTANTS
   Unwrapped = {}
   DepthRestore = "parent"
   ContextDropped = FALSE
+  CloseFailure = "logged"
 INIT Init
 NEXT Next
 INVARIANTS
